@@ -226,6 +226,32 @@ def process(ctx, c):
                     pass
         except (ZeroDivisionError, TypeError, ValueError, OverflowError):
             pass
+        # a second dialect (numbers at one assignment), and the sympy dialect once more afterwards: a translation is a function of the
+        # tree and the dialect - not of which dialects were used before, nor of a translation that was refused earlier on
+        if syms_ok and not rec["fails"]:
+            import functools
+            import operator as _op
+
+            from orquestra.quantum.circuits.symbolic.expressions import ExpressionDialect, FunctionCall, Symbol
+
+            sg = SIGMAS[0]
+            NUM = ExpressionDialect(symbol_factory=lambda s_: sg[s_.name], number_factory=lambda v_: complex(v_),
+                                    known_functions={"add": lambda *a_: functools.reduce(_op.add, a_), "mul": lambda *a_: functools.reduce(_op.mul, a_), "div": _op.truediv, "sub": _op.sub,
+                                                     "pow": lambda a_, b_: cmath.exp(b_ * cmath.log(a_)) if a_ != 0 else (0j if b_ != 0 else 1 + 0j), "cos": cmath.cos, "sin": cmath.sin, "exp": cmath.exp, "sqrt": cmath.sqrt, "tan": cmath.tan})
+            try:
+                try:
+                    translate_expression(FunctionCall("mul", (FunctionCall("cos", (FunctionCall("add", (Symbol("x"), Symbol("y"))),)), FunctionCall("log", (Symbol("x"),)))), SYMPY_DIALECT)
+                except ValueError:
+                    pass
+                vnum = complex(translate_expression(n, NUM))
+                again = sympy.sympify(translate_expression(n, SYMPY_DIALECT))
+                v0 = num_eval(e, sg)
+                if cmath.isfinite(v0) and cmath.isfinite(vnum) and not close(v0, vnum):
+                    rec["fails"].append(("value:numeric-dialect", "%s -> tree %s translated with a numeric dialect at %s gives %s, the expression evaluates to %s" % (e, n, sg, vnum, v0)))
+                elif getattr(again, "free_symbols", set()) != getattr(b_expr, "free_symbols", set()) or (cmath.isfinite(v0) and not close(num_eval(again, sg), v0)):
+                    rec["fails"].append(("value:dialect-history", "%s: translated to sympy again after a refused translation and a translation with another dialect: %s (first time: %s)" % (e, again, b_expr)))
+            except (ZeroDivisionError, OverflowError, ValueError, TypeError):
+                pass
         foreign = [s_ for s_ in b_expr.free_symbols if s_ not in e.free_symbols and str(s_) in set(map(str, e.free_symbols))]
         if foreign and not rec["fails"]:
             rec["fails"].append(("symbols:identity", "%s translates back to %s whose symbol %s is not the source's symbol of that name (assumptions %s): assigning the source's symbols leaves it unevaluated, and sympy rewrites the expression under assumptions the source never made" % (e, b_expr, foreign[0], {k_: v_ for k_, v_ in foreign[0].assumptions0.items() if k_ in ("positive", "negative", "real", "integer")})))
